@@ -4,6 +4,8 @@
 //! (replaying TLC-exported scenarios or seeded random histories) and records one ndjson
 //! event per specification action with arguments, reply and projected abstract state.
 mod drivers;
+mod named;
+mod runproblems;
 mod tagproblem;
 mod util;
 
@@ -20,6 +22,8 @@ fn main() {
 fn run(args: &util::Args) -> usize {
     match args.driver.as_str() {
         "registry" => drivers::registry::main(args),
+        "memory" => drivers::memory::main(args),
+        "templates" => drivers::templates::main(args),
         "exec" => drivers::exec::main(args),
         "borrow" => drivers::borrow::main(args),
         "populations" => drivers::populations::main(args),
